@@ -38,7 +38,7 @@
 (* general and SIMD&FP scalar registers), branches (B, BL, B.cond, CBZ,    *)
 (* CBNZ, TBZ, TBNZ, BR, BLR, RET), NOP/PRFM, and the Advanced SIMD integer *)
 (* forms the lifter dispatches under ADD/SUB/MOV: ADD/SUB (vector and      *)
-(* scalar), ORR (vector) = MOV, INS, UMOV, DUP (scalar).                   *)
+(* scalar), ORR (vector) = MOV, INS, UMOV, DUP (scalar); SVE prefetches.   *)
 (***************************************************************************)
 EXTENDS BV
 
@@ -357,6 +357,7 @@ LsOrdered(w, pc, big, s) ==
       tags == <<"ldst_ordered", IF o0 = 1 THEN "acqrel" ELSE "lo">>
   IN IF o2 = 1 /\ o1 = 0 /\ rs = 31 /\ t2 = 31
      THEN LsExec(s, pc, big, m, 0, t, n, Zero(64), FALSE, FALSE, tags)
+     ELSE IF o2 = 1 /\ o1 = 0 THEN Unspec("unpredictable", tags)          \* Rs / Rt2 should be ones
      ELSE Unspec("exclusive-or-cas", <<"ldst_exclusive">>)
 
 \* size 011001 opc 0 imm9 00 Rn Rt : STLUR* (opc = 00), LDAPUR* (opc = 01), LDAPURS* (1x)
@@ -519,6 +520,30 @@ SimdGroup(w, pc, s) ==
   ELSE IF F(w, 30, 2) = 1 /\ F(w, 21, 8) = 240 /\ F(w, 15, 1) = 0 /\ F(w, 10, 1) = 1 THEN SimdScalarCopy(w, pc, s)
   ELSE Unspec("class", <<"simd_fp_other">>)
 
+(* ------------------------------ SVE prefetch hints ---------------------- *)
+\* PRFB/PRFH/PRFW/PRFD (contiguous and gather forms) are hints: no architectural state changes
+\* whatever the vector length.  (Other SVE instructions are not specified: the vector length is
+\* IMPLEMENTATION DEFINED and the Z/P registers are not part of the modelled state.)
+\*   1000010 1 11 imm6 0 msz Pg Rn 0 prfop     contiguous, scalar plus immediate
+\*   1000010 msz 00 Rm 110 Pg Rn 0 prfop       contiguous, scalar plus scalar (Rm # 11111)
+\*   1000010 00 xs 1 Zm 0 msz Pg Rn 0 prfop    32-bit gather, scalar plus 32-bit scaled offsets
+\*   1000010 msz 00 imm5 111 Pg Zn 0 prfop     32-bit gather, vector plus immediate
+\*   1100010 00 xs 1 Zm 0 msz Pg Rn 0 prfop    64-bit gather, scalar plus unpacked 32-bit scaled offsets
+\*   1100010 00 11 Zm 1 msz Pg Rn 0 prfop      64-bit gather, scalar plus 64-bit scaled offsets
+\*   1100010 msz 00 imm5 111 Pg Zn 0 prfop     64-bit gather, vector plus immediate
+SvePrefetch(w, pc, s) ==
+  LET top == F(w, 25, 7)  b2423 == F(w, 23, 2)  b2221 == F(w, 21, 2)  b1513 == F(w, 13, 3)
+      msz == IF (b2423 = 3 /\ F(w, 22, 1) = 1) \/ (b2423 = 0 /\ F(w, 21, 1) = 1) THEN F(w, 13, 2) ELSE b2423
+      tags == <<"sve_prefetch", <<"PRFB", "PRFH", "PRFW", "PRFD">>[msz + 1]>>
+      contig_imm == top = 66 /\ F(w, 22, 3) = 7 /\ F(w, 15, 1) = 0
+      contig_reg == top = 66 /\ b2221 = 0 /\ b1513 = 6 /\ F(w, 16, 5) # 31
+      gather_off == (top = 66 \/ top = 98) /\ b2423 = 0 /\ F(w, 21, 1) = 1 /\ F(w, 15, 1) = 0
+      gather_64  == top = 98 /\ b2423 = 0 /\ b2221 = 3 /\ F(w, 15, 1) = 1
+      gather_imm == (top = 66 \/ top = 98) /\ b2221 = 0 /\ b1513 = 7
+  IN IF F(w, 4, 1) = 0 /\ (contig_imm \/ contig_reg \/ gather_off \/ gather_64 \/ gather_imm)
+     THEN Ok(s, Seq4(pc), tags)
+     ELSE Unspec("class", <<"sve_other">>)
+
 (* ------------------------------ top-level decode ----------------------- *)
 IsNop(w) == w = <<31, 32, 3, 213>>                           \* 0xd503201f
 
@@ -553,5 +578,6 @@ Exec(w, pc, big, s) ==
     ELSE IF F(w, 24, 5) = 10 THEN LogicShift(w, pc, s)
     ELSE Unspec("class", <<"dp_reg_other">>)
   ELSE IF op0 % 8 = 7 THEN SimdGroup(w, pc, s)                \* x111 scalar floating-point and Advanced SIMD
+  ELSE IF op0 = 2 THEN SvePrefetch(w, pc, s)                  \* 0010 SVE
   ELSE Unspec("class", <<"other_group">>)
 =============================================================================
